@@ -173,7 +173,12 @@ fn replay(args: &[String]) {
 
 fn main() {
     ev::init(1 << 16);
-    std::panic::set_hook(Box::new(|_| {}));
+    if std::env::var("TVH_SHOW_PANICS").is_ok() {
+        // debugging aid: show where panics (of the crate under test or of the harness) come from
+        std::panic::set_hook(Box::new(|i| eprintln!("PANIC: {}", i)));
+    } else {
+        std::panic::set_hook(Box::new(|_| {}));
+    }
     trace::install();
     let args: Vec<String> = std::env::args().skip(1).collect();
     if args.is_empty() {
